@@ -105,7 +105,7 @@ def fixed_result(case):
     if not beh:
         return None
     for b in beh.values():
-        if b.get("outcome") != "success" or b.get("deploy_fail"):
+        if b.get("outcome") != "success" or b.get("deploy_fail") or b.get("start_fail"):
             return None
     wfs = [case.get("wf") or {}] + list((case.get("files_wf") or {}).values())
     # every plugin step must be scripted (an unscripted source succeeds by default, but then say so explicitly)
